@@ -113,62 +113,273 @@ def check_obsfcst_layout(ctx):
         ctx.ob("C16.1", "verif.output.ObsFcst._plot_core", ok, "column %s read by the plot is a column written by _get_x_y" % src, loc=prog.loc(m, node),
                msg="_plot_core reads column %s but _get_x_y writes columns %s: curves and labels are paired with another input's/quantile's data"
                    % (src, [str(s_) for s_ in store_forms]), sample={"rule": "C16.1", "read": str(lf), "written": [str(s_) for s_ in store_forms]})
-    # labels are appended in the order of the column index (quantile-major)
-    src = norm(c.methods["_get_x_y"])
-    ok = "for q, quantile in enumerate(self.quantiles):" in src and "for f in range(F):" in src and src.index("enumerate(self.quantiles)") < src.rindex("for f in range(F):") \
-        and "labels += [" in src
-    lab_form = symeval.eval_expr_string("F + f + 1 + q * F")
-    ctx.ob("C16.1", "verif.output.ObsFcst._get_x_y", ok and any(sf.equals(lab_form) for sf in store_forms),
-           "quantile columns and their labels are both laid out quantile-major (column F + f + 1 + q*F)", loc=prog.loc(m, c.methods["_get_x_y"]),
-           msg="quantile columns are stored at %s while labels are appended quantile-major (F + f + 1 + q*F)" % [str(s_) for s_ in store_forms])
+    # the order in which the quantile labels are produced is the order of the quantile columns: the loop (or comprehension clause)
+    # that varies fastest in the label list is the one whose variable has coefficient 1 in the column index
+    gxy = c.methods["_get_x_y"]
+    pm = parent_map(gxy)
+
+    def kind_of(iter_node):
+        names = {n_.id for n_ in ast.walk(iter_node) if isinstance(n_, ast.Name)} | {n_.attr for n_ in ast.walk(iter_node) if isinstance(n_, ast.Attribute)}
+        if "quantiles" in names:
+            return "quantile"
+        if names & {"F", "num_inputs", "labels", "get_legend", "get_names"}:
+            return "input"
+        return None
+
+    def loop_nest(node):
+        out = []
+        cur = pm.get(node)
+        while cur is not None:
+            if isinstance(cur, ast.For):
+                out.append(cur)
+            cur = pm.get(cur)
+        return list(reversed(out))            # outermost first
+
+    col_store = None
+    for st in ast.walk(gxy):
+        if isinstance(st, ast.Assign) and len(st.targets) == 1 and isinstance(st.targets[0], ast.Subscript) and dotted(st.targets[0].value) == "y" \
+                and len(loop_nest(st)) == 2:
+            col_store = st
+    ctx.need(col_store is not None, "ObsFcst._get_x_y: the store of the quantile columns (inside two nested loops) was not found")
+    nest = loop_nest(col_store)
+    col = symeval.eval_expr_string(norm(col_store.targets[0].slice.elts[1]))
+    fast = slow = None
+    for lp in nest:
+        var = lp.target.elts[0].id if isinstance(lp.target, ast.Tuple) else lp.target.id
+        step = (form.subst(col, {var: S(var) + Rat.const(1)}) - col)
+        if step.const_value() == 1:
+            fast = kind_of(lp.iter)
+        elif not step.is_zero():
+            slow = kind_of(lp.iter)
+    ctx.need(fast is not None and slow is not None and fast != slow, "ObsFcst._get_x_y: column index %s is not affine in the two loop variables" % col)
+    producers = []
+    for st in ast.walk(gxy):
+        tgt = None
+        if isinstance(st, ast.AugAssign) and dotted(st.target) == "labels":
+            tgt = st
+        elif isinstance(st, ast.Expr) and isinstance(st.value, ast.Call) and dotted(st.value.func) in ("labels.append", "labels.extend"):
+            tgt = st
+        if tgt is None:
+            continue
+        comps = [n_ for n_ in ast.walk(tgt) if isinstance(n_, ast.ListComp)]
+        if comps:
+            kinds = [kind_of(g.iter) for g in comps[0].generators]
+        else:
+            kinds = [kind_of(lp.iter) for lp in loop_nest(tgt)]
+        kinds = [k for k in kinds if k]
+        if "quantile" in kinds:
+            producers.append((tgt, kinds))
+    ctx.need(producers, "ObsFcst._get_x_y: the statement that produces the quantile labels was not found")
+    for tgt, kinds in producers:
+        ok = len(kinds) == 2 and kinds[0] == slow and kinds[1] == fast
+        ctx.ob("C16.1", "verif.output.ObsFcst._get_x_y", ok, "quantile labels are produced in the order of the quantile columns (%s-major)" % slow, loc=prog.loc(m, tgt),
+               msg="the quantile columns are laid out %s-major (column %s) but the labels are produced in the order %s: with several inputs and several "
+                   "quantiles a curve / csv column carries the label of another input's quantile" % (slow, col, " then ".join(kinds) or "?"),
+               sample={"rule": "C16.1", "column": str(col), "label_order": kinds})
 
 
 PROB_BIN_SITES = {"verif.output.Reliability._plot_core", "verif.output.Discrimination._plot_core", "verif.output.IgnContrib._plot_core"}
+# binning sites confirmed by reading (function -> number of bin-membership tests over consecutive edges); a site that disappears is an
+# analysis error, not a pass
+BIN_SITES = {"verif.metric.BsRel.compute_from_obs_fcst": 1, "verif.metric.BsRes.compute_from_obs_fcst": 1, "verif.metric.BssRel.compute_from_obs_fcst": 1,
+             "verif.metric.BssRes.compute_from_obs_fcst": 1, "verif.output.Standard._plot_impact_core": 4, "verif.output.Scatter._plot_core": 1,
+             "verif.output.Change._plot_core": 1, "verif.output.Discrimination._plot_core": 2, "verif.output.Reliability._plot_core": 1,
+             "verif.output.IgnContrib._plot_core": 1, "verif.output.InvReliability._plot_core": 1, "verif.util.bin": 1,
+             "verif.output.SpreadSkill._plot_core": 1}
+
+
+def _consecutive(a, b):
+    """b is the edge that follows a: E[k+1] after E[k], or centre + w after centre - w."""
+    aa, ab = a.as_atom(), b.as_atom()
+    if aa is not None and ab is not None and aa.func == "getitem" and ab.func == "getitem" and isinstance(aa.args[0], Rat) and isinstance(ab.args[0], Rat) \
+            and aa.args[0].equals(ab.args[0]) and isinstance(aa.args[1], Rat) and isinstance(ab.args[1], Rat):
+        d = (ab.args[1] - aa.args[1]).const_value()
+        return d == 1
+    try:
+        half = (b - a) / Rat.const(2)
+        mid = (b + a) / Rat.const(2)
+    except form.Undefined:
+        return False
+    return half.as_atom() is not None and half.as_atom().func.startswith("$") and not any(x is half.as_atom() for x in mid.atoms(deep=True)) \
+        and mid.as_atom() is not None and mid.as_atom().func == "getitem"
+
+
+def _mask_roots(f):
+    pm = parent_map(f)
+    for node in ast.walk(f):
+        if isinstance(node, ast.BinOp) and isinstance(node.op, (ast.BitAnd, ast.BitOr)):
+            par = pm.get(node)
+            if isinstance(par, ast.BinOp) and isinstance(par.op, (ast.BitAnd, ast.BitOr)):
+                continue
+            yield node
 
 
 def check_bins(ctx):
     prog = ctx.prog
-    n = 0
+    seen = {}
     for qual, m, c, f in prog.all_functions(["verif.output", "verif.util", "verif.metric"]):
-        for node in ast.walk(f):
-            if not (isinstance(node, ast.BinOp) and isinstance(node.op, ast.BitAnd)):
-                continue
-            src = norm(node)
-            # two comparisons of one subject with consecutive edges  e[i], e[i + 1]  (or centre -/+ width)
-            parts = []
-            for side in (node.left, node.right):
-                if isinstance(side, ast.Compare) and len(side.ops) == 1:
-                    parts.append(side)
-            if len(parts) != 2:
-                continue
-            bounds = [norm(p.comparators[0]) for p in parts]
-            subj = [norm(p.left) for p in parts]
-            if subj[0] != subj[1]:
-                continue
-            lo, hi = bounds
-            consecutive = ("[i]" in lo and "[i + 1]" in hi and lo.replace("[i]", "") == hi.replace("[i + 1]", "")) or \
-                          ("[i - 1]" in lo and "[i]" in hi) or ("- width" in lo and "+ width" in hi)
-            if not consecutive:
-                continue
+        for node in _mask_roots(f):
             ev = symeval.Evaluator(m)
-            r = ev.ev(node, symeval.Path({}, []))
-            L, U, X = ev.ev(parts[0].comparators[0], symeval.Path({}, [])), ev.ev(parts[1].comparators[0], symeval.Path({}, [])), ev.ev(parts[0].left, symeval.Path({}, []))
             try:
-                tab = shape.table2(r, shape.Roles(L, U, {}, x=X))
-            except shape.Unknown:
+                r = ev.ev(node, symeval.Path({}, []))
+            except symeval.Undecided:
                 continue
-            n += 1
-            half_open = tab in (shape.expected_table(True, False), shape.expected_table(False, True))
-            ctx.ob("C16.2", qual, half_open, "bins over consecutive edges are half-open (%s)" % ("[a,b)" if tab == shape.expected_table(True, False) else "(a,b]" if tab == shape.expected_table(False, True) else "other"),
-                   loc=prog.loc(m, node), msg="bin test %s denotes %s: values on an interior edge fall into two bins or none" % (src, tab),
-                   sample={"rule": "C16.2", "site": qual, "test": src})
-            if qual in PROB_BIN_SITES and tab == shape.expected_table(True, False):
-                # probability bins [e_i, e_i+1): the last edge must exceed 1 or the last bin be closed
-                fsrc = norm(f)
-                raised = "1.001" in fsrc or "edges[-1] =" in fsrc
-                ctx.ob("C16.2", qual, raised, "probability bins include p = 1 (top edge)", loc=prog.loc(m, node),
-                       msg="bins [e_i, e_i+1) on edges ending at 1: cases with forecast probability exactly 1 fall into no bin and are dropped from the diagram")
-    ctx.floor("C16.2", 10)
+            if not isinstance(r, Rat):
+                continue
+            # operands of the comparisons (and of tolerance tests) inside the mask
+            ops = []
+            for at in r.atoms(deep=True):
+                if at.func in ("cmp_lt", "cmp_le") or at.func in ("call:numpy.isclose", "call:numpy.allclose"):
+                    ops.extend(x for x in at.args[:2] if isinstance(x, Rat))
+                elif at.func in ("cmp_eq", "cmp_ne") and isinstance(at.args[0], Rat):
+                    pass
+            pairs = []
+            for a in ops:
+                for b in ops:
+                    if a is not b and not a.equals(b) and _consecutive(a, b) and not any(a.equals(p_[0]) and b.equals(p_[1]) for p_ in pairs):
+                        pairs.append((a, b))
+            conj = q.leaves(r, "and")
+            for L, U in pairs:
+                # the conjuncts that involve one of the two edges form the bin test; the others (validity masks, the other coordinate
+                # of a two-dimensional box) are side conditions that do not change which interval of THIS coordinate is selected
+                rel = [c_ for c_ in conj if isinstance(c_, Rat) and (L.key() in c_.key() or U.key() in c_.key())]
+                test = rel[0] if len(rel) == 1 else form.apply("and", rel)
+                subj = []
+                for at in test.atoms(deep=True):
+                    if at.func in ("cmp_lt", "cmp_le", "call:numpy.isclose", "call:numpy.allclose"):
+                        subj.extend(x for x in at.args[:2] if isinstance(x, Rat) and not x.equals(L) and not x.equals(U))
+                X = subj[0] if subj else None
+                src = norm(node)
+                seen[qual] = seen.get(qual, 0) + 1
+                try:
+                    tab = shape.table2(test, shape.Roles(L, U, {}, x=X))
+                except shape.Unknown as e:
+                    tol = "isclose" in test.key() or "allclose" in test.key()
+                    ctx.ob("C16.2", qual, False, "bin membership over consecutive edges is an exact order test (half-open interval)", loc=prog.loc(m, node),
+                           msg="bin test %s %s: consecutive bins are not disjoint, a value on (or within tolerance of) an interior edge is counted in two bins"
+                               % (src[:120], "uses a tolerance comparison (isclose)" if tol else "is not a pair of order comparisons with the two edges (%s)" % e))
+                    continue
+                half_open = tab in (shape.expected_table(True, False), shape.expected_table(False, True))
+                ctx.ob("C16.2", qual, half_open, "bins over consecutive edges are half-open (%s)" % ("[a,b)" if tab == shape.expected_table(True, False) else "(a,b]" if tab == shape.expected_table(False, True) else "other"),
+                       loc=prog.loc(m, node), msg="bin test %s denotes %s: values on an interior edge fall into two bins or none" % (src, tab),
+                       sample={"rule": "C16.2", "site": qual, "test": src})
+                if qual in PROB_BIN_SITES and tab == shape.expected_table(True, False):
+                    # probability bins [e_i, e_i+1): the last edge must exceed 1 or the last bin be closed
+                    raised = _top_edge_raised(prog, m, f)
+                    ctx.ob("C16.2", qual, raised, "probability bins include p = 1 (top edge)", loc=prog.loc(m, node),
+                           msg="bins [e_i, e_i+1) on edges ending at 1: cases with forecast probability exactly 1 fall into no bin and are dropped from the diagram")
+    for qual, want in sorted(BIN_SITES.items()):
+        ctx.need(seen.get(qual, 0) >= want, "%s: %d of %d confirmed bin-membership tests found" % (qual, seen.get(qual, 0), want))
+    extra = sorted(set(seen) - set(BIN_SITES))
+    if extra:
+        ctx.note("bin-membership tests outside the confirmed table (checked all the same): %s" % extra)
+    ctx.floor("C16.2", 14)
+
+
+def _top_edge_raised(prog, m, f):
+    """The last probability edge is moved above 1 (edges[-1] = something > 1) before the binning loop."""
+    for st in ast.walk(f):
+        if isinstance(st, ast.Assign) and len(st.targets) == 1 and isinstance(st.targets[0], ast.Subscript) and const(st.targets[0].slice) == -1:
+            v = const(st.value)
+            if isinstance(v, (int, float)) and v > 1:
+                return True
+    return False
+
+
+ELEMENTWISE = {"abs", "ifexp", "nparray", "float", "setitem", "call:numpy.nan_to_num", "exp", "log", "pylist"}
+
+
+def _is_selection(ix):
+    at = ix.as_atom() if isinstance(ix, Rat) else None
+    if at is None:
+        return False
+    if at.func == "where":
+        return True
+    return at.func == "getitem" and isinstance(at.args[0], Rat) and _is_selection(at.args[0])
+
+
+def _selections(r, depth=0):
+    """The set of where()-derived index vectors applied along the data path of a per-point array (not inside index expressions,
+    not below reductions)."""
+    out = set()
+    if depth > 30 or not isinstance(r, Rat):
+        return out
+    for a in r.atoms(deep=False):
+        if a.func == "getitem":
+            ix = a.args[1]
+            comps = ix if isinstance(ix, tuple) and not (ix and ix[0] == "slice") else (ix,)
+            for c_ in comps:
+                if isinstance(c_, Rat) and _is_selection(c_):
+                    out.add(c_.key())
+            if isinstance(a.args[0], Rat):
+                out |= _selections(a.args[0], depth + 1)
+        elif a.func in ELEMENTWISE or a.func.startswith("m:"):
+            for x in a.args:
+                if isinstance(x, Rat):
+                    out |= _selections(x, depth + 1)
+    return out
+
+
+SCATTER_SITES = {("Standard", "_plot_mapimpact_core"): 2}
+
+
+def check_coselection(ctx):
+    """Points of a scatter are (x, y, size/colour) triples: every per-point argument of one scatter call, and the coordinates and
+    label arrays handed to _add_annotation, must have gone through the same sequence of np.where selections.  (An array that was
+    not subset while its partners were pairs values of different stations.)"""
+    prog = ctx.prog
+    m = prog.module("verif.output")
+    found = {}
+    for c in sorted(m.classes.values(), key=lambda c: c.name):
+        if not prog.is_subclass(c, "verif.output.Output"):
+            continue
+        for meth in sorted(c.methods):
+            if not meth.startswith("_plot") and not meth.startswith("_map"):
+                continue
+            src_has = any(isinstance(k.func, ast.Attribute) and k.func.attr in ("scatter",) for k in calls_in(c.methods[meth]))
+            if not src_has:
+                continue
+            annot = []
+
+            def hook(ev, node, rname, args, kwargs, path):
+                if rname == "self._add_annotation":
+                    annot.append((node, args, dict(path.env)))
+                return None
+            try:
+                calls, ev = plotargs.draw_calls(prog, c, meth, extra_hook=hook, max_paths=512)
+            except symeval.Undecided:
+                continue
+            for k in calls:
+                if k["kind"] != "scatter":
+                    continue
+                cand = [("x", k["args"][0] if len(k["args"]) > 0 else None), ("y", k["args"][1] if len(k["args"]) > 1 else None),
+                        ("s", k["kwargs"].get("s")), ("c", k["kwargs"].get("c"))]
+                cand = [(n_, v) for n_, v in cand if isinstance(v, Rat) and v.const_value() is None and not (v.as_atom() is not None and v.as_atom().func.startswith("$self."))]
+                sigs = [(n_, _selections(v)) for n_, v in cand]
+                if len(sigs) < 2 or not any(sg for _, sg in sigs):
+                    continue
+                qual = c.qual + "." + meth
+                found[(c.name, meth)] = found.get((c.name, meth), 0) + 1
+                ok = all(sg == sigs[0][1] for _, sg in sigs)
+                odd = [n_ for n_, sg in sigs if sg != max((s2 for _, s2 in sigs), key=len)]
+                ctx.ob("C16.5", qual, ok, "scatter: x, y and size/colour went through the same selections", loc=prog.loc(m, k["node"]),
+                       msg="scatter arguments were subset differently: %s lack(s) a selection that the others have (%s): markers are drawn at the "
+                           "coordinates of other stations" % (odd, {n_: len(sg) for n_, sg in sigs}),
+                       sample={"rule": "C16.5", "site": qual, "selections": {n_: len(sg) for n_, sg in sigs}})
+            for node, args, env in annot:
+                if len(args) < 3 or not isinstance(args[0], Rat):
+                    continue
+                base = _selections(args[0])
+                vals = [("y", args[1])]
+                # the label dictionary: values stored under its keys
+                for e in ev.events if ev is not None else []:
+                    pass
+                qual = c.qual + "." + meth
+                ok = isinstance(args[1], Rat) and _selections(args[1]) == base
+                ctx.ob("C16.5", qual, ok, "_add_annotation: x and y went through the same selections", loc=prog.loc(m, node),
+                       msg="_add_annotation receives x and y that were subset differently")
+    for key, want in sorted(SCATTER_SITES.items()):
+        ctx.need(found.get(key, 0) >= want, "%s.%s: %d of %d confirmed scatter calls with selections found" % (key[0], key[1], found.get(key, 0), want))
 
 
 def check_annotations(ctx):
@@ -280,11 +491,13 @@ def run(ctx):
     ctx.rule("C16.1", "series <-> input <-> label index discipline; obsfcst column layout written = read")
     ctx.rule("C16.2", "binning loops over consecutive edges are half-open; probability bins include the top edge")
     ctx.rule("C16.3", "annotation keys carry the attribute they name")
+    ctx.rule("C16.5", "co-selection: per-point arguments of a scatter are subset by the same np.where selections")
     ctx.rule("C16.4", "plot-argument table: roc, droc, performance, taylor, error, qq")
     check_series_index(ctx)
     check_obsfcst_layout(ctx)
     check_bins(ctx)
     check_annotations(ctx)
+    check_coselection(ctx)
     check_plot_args(ctx)
     ctx.note("UNCOVERED for C16.4: fss, auto*, timeseries, meteo, against, hist/sort (C07.8), maps, rank, impact, reliability/discrimination series values, "
              "economic value, murphy, marginal, freq (C07.8), spread-skill, change, cond, pithist, bsdecomp, igncontrib")
